@@ -35,11 +35,14 @@ let model_op toks : string = match toks with
   | ["u8enc"; cp] -> hexz (to_string (z_of_dec cp))
   | ["u8encn"; cps] -> hexz (to_string_n (cps_of_tok cps))
   | ["u8len"; b] -> dec_of_z (utf8_length (z_of_dec b))
-  | ["u8dec"; h] -> dec_of_z (get (from_string (bytes_of_hex h)))
-  | ["u8valid"; h] -> bit (get (is_valid (bytes_of_hex h)))
+  (* the readers are printed twice: pointer overload, then the String overload (Unicode.hpp: fromString(str, str.length()),
+     isValid(str, str.length()) - the same model function on the same bytes) *)
+  | ["u8dec"; h] -> let v = dec_of_z (get (from_string (bytes_of_hex h))) in v ^ " " ^ v
+  | ["u8valid"; h] -> let v = bit (get (is_valid (bytes_of_hex h))) in v ^ " " ^ v
   | ["u8rt"; cp] ->
       let s = to_string (z_of_dec cp) in
-      Printf.sprintf "%s %s %s" (hexz s) (dec_of_z (get (from_string s))) (bit (get (is_valid s)))
+      let d = dec_of_z (get (from_string s)) and v = bit (get (is_valid s)) in
+      Printf.sprintf "%s %s %s %s %s" (hexz s) d v d v
   | ["hex"; h] -> hexz (get (from_hex (bytes_of_hex h)))
   | ["b64"; h] -> hexz (get (from_base64 (bytes_of_hex h)))
   | ["b64raw"; h] -> hexz (get (from_base64_unrepaired (bytes_of_hex h)))
@@ -72,13 +75,13 @@ let spec_op toks : string = match toks with
       let l = cps_of_tok cps in
       if List.for_all is_cp l then hexz (List.concat (List.map rfc3629 l)) else "?"
   | ["u8len"; b] -> dec_of_z (lead_len (z_of_dec b))
-  | ["u8dec"; h] -> (match utf8_first (bytes_of_hex h) with Some cp -> dec_of_z cp | None -> "?")
+  | ["u8dec"; h] -> let v = (match utf8_first (bytes_of_hex h) with Some cp -> dec_of_z cp | None -> "?") in v ^ " " ^ v
   | ["u8valid"; h] ->
       let bs = bytes_of_hex h in
-      if utf8_text bs then "1" else if layout_valid bs then "?" else "0"
+      let v = if utf8_text bs then "1" else if layout_valid bs then "?" else "0" in v ^ " " ^ v
   | ["u8rt"; cp] ->
       let c = z_of_dec cp in
-      if is_cp c then Printf.sprintf "%s %s 1" (hexz (rfc3629 c)) (dec_of_z c) else "? ? ?"
+      if is_cp c then Printf.sprintf "%s %s 1 %s 1" (hexz (rfc3629 c)) (dec_of_z c) (dec_of_z c) else "? ? ? ? ?"
   | ["hex"; h] -> hexz (upper_hex (bytes_of_hex h))
   | ["b64"; h] | ["b64raw"; h] ->
       (match rfc4648_preimage (bytes_of_hex h) with Some bs -> hexz bs | None -> "?")
